@@ -45,10 +45,8 @@ class VariablePayload(Payload):
                 inspect.ismethod(super().__init__):
             super_argspec = inspect.getfullargspec(super().__init__).args[1:]
             for arg in super_argspec:
-                if arg in kwargs:
-                    fwd_args[arg] = kwargs.pop(arg)
-                else:
-                    fwd_args[arg] = args[index]
+                # Anonymous arguments come first, exactly like for our own fields below.
+                fwd_args[arg] = args[index] if index < len(args) else kwargs.pop(arg)
                 index += 1
             super().__init__(**fwd_args)
         Payload.__init__(self)
